@@ -103,6 +103,11 @@ def tokensForRegexes (er : Ent) : List RegexTokFact → Option (List Tok)
     | some a, some b => some (a ++ b)
     | _, _ => none
 
+/-- the points `single_time_point_with_patterns` looks at: the date points, then the ordinals that overlap none of
+them (`"week of the 18th"`). -/
+def singlePoints (dates ords : List Ent) : List Ent :=
+  dates ++ ords.filter fun o => !(dates.any fun x => entOverlap x o)
+
 /-- `single_time_point_with_patterns`: per date point (or un-overlapped ordinal) the regex calls the code makes, in
 order (week-of, month-of, then for relative dates less-than, more-than, then within-next when it gets that far). -/
 def singleTimePoint : List (Ent × List RegexTokFact) → Option (List Tok)
@@ -163,33 +168,30 @@ def tpMergeTwoTimePoints (v : Variant) (times nums : List Ent) (ending : Bool) (
 /-! ## BaseDateTimePeriodExtractor -/
 
 /-- the second loop of `merge_two_time_points` — "{Date} {TimePeriod}" / "{TimePeriod} {Date}": `pts` = dates and
-non-mealtime time periods sorted by start with their kind (`true` = date); `oks` = for every reached pair with a
-non-empty middle: the middle is blank or starts with `token_before_date`. After a token the index moves on by THREE
-(`index += 2` and then the unconditional `index += 1`, sic). `extended_date_str.index == 0` compares a bound method
-with 0: the offset is always 0. -/
-def dtpSecondLoop (pts : Array (Ent × Bool)) : Nat → Nat → List Bool → List Tok → List Tok
-  | 0, _, _, acc => acc
-  | fuel + 1, i, oks, acc =>
+non-mealtime time periods sorted by start with their kind (`true` = date); `ok i` = the text between point `i` and
+point `i + 1` is blank or starts with `token_before_date` (a fact about the text, asked only for reached pairs with a
+non-empty middle). After a token the index moves on by THREE (`index += 2` and then the unconditional `index += 1`,
+sic). `extended_date_str.index == 0` compares a bound method with 0: the offset is always 0. -/
+def dtpSecondLoop (pts : Array (Ent × Bool)) (ok : Nat → Bool) : Nat → Nat → List Tok → List Tok
+  | 0, _, acc => acc
+  | fuel + 1, i, acc =>
     if i + 1 < pts.size then
       match pts[i]?, pts[i + 1]? with
       | some a, some b =>
         if a.2 == b.2 then acc
         else if b.1.start - (a.1.start + a.1.len) > 0 then
-          match oks with
-          | [] => acc
-          | ok :: rest =>
-            if ok then dtpSecondLoop pts fuel (i + 3) rest (acc ++ [⟨a.1.start, b.1.start + b.1.len⟩])
-            else dtpSecondLoop pts fuel (i + 1) rest acc
-        else dtpSecondLoop pts fuel (i + 1) oks acc
+          if ok i then dtpSecondLoop pts ok fuel (i + 3) (acc ++ [⟨a.1.start, b.1.start + b.1.len⟩])
+          else dtpSecondLoop pts ok fuel (i + 1) acc
+        else dtpSecondLoop pts ok fuel (i + 1) acc
       | _, _ => acc
     else acc
 
 def dtpSecondPoints (dates periods : List Ent) : List (Ent × Bool) :=
   sortByStart (·.1.start) (dates.map (·, true) ++ periods.map (·, false))
 
-def dtpDateWithTimePeriod (dates periods : List Ent) (oks : List Bool) : List Tok :=
+def dtpDateWithTimePeriod (dates periods : List Ent) (ok : Nat → Bool) : List Tok :=
   let pts := dtpSecondPoints dates periods
-  dtpSecondLoop pts.toArray pts.length 0 oks []
+  dtpSecondLoop pts.toArray ok pts.length 0 []
 
 /-- one time-unit duration of `match_duration`. ALL offsets are offsets into `source.strip().lower()` (the function
 re-binds `source`); the tokens are used as offsets into the un-stripped text. `withinM` / `withinSeg` / `withinFirst` /
@@ -308,28 +310,34 @@ def todDates : List TodFact → List Tok
         (if f.pause1 then [⟨f.er.start, f.er.start + f.er.len + m.e⟩] else []) ++ todAmPm f ++ todPrefix f ++ todDates rest
     | none => todAmPm f ++ todPrefix f ++ todDates rest
 
-/-- the adjacency pass for one token of the first pass: time periods found in `source[0:token.start]` (`before`) and in
-`source[token.start + token.length:]` (`after`), each with `ok` = the gap is blank and the period carries no metadata;
-`gap` = `len(mid_str)` for the before-string. `n` = `len(source)`. -/
-structure TodAdj where
-  before : List (Ent × Int × Bool)
-  after : List (Ent × Bool)
-deriving Repr, Inhabited
-
-def todAdjOne (n : Int) (t : Tok) (a : TodAdj) : List Tok :=
+/-- the adjacency pass for one token of the first pass: `before` = the time periods found in `source[0:token.start]`,
+each with `gap` = `len(mid_str)` and `ok` = the gap is blank and the period carries no metadata; `after` = those found in
+`source[token.start + token.length:]`. `n` = `len(source)`. -/
+def todAdjOne (n : Int) (t : Tok) (before : List (Ent × Int × Bool)) (after : List (Ent × Bool)) : List Tok :=
   (if t.start > 0 then
-    a.before.filterMap fun x => if x.2.2 then some ⟨x.1.start, x.1.start + x.1.len + x.2.1 + t.length⟩ else none
+    before.filterMap fun x => if x.2.2 then some ⟨x.1.start, x.1.start + x.1.len + x.2.1 + t.length⟩ else none
    else []) ++
   (if t.stop ≤ n then
-    a.after.filterMap fun x => if x.2 then some ⟨t.start, t.stop + x.1.start + x.1.len⟩ else none
+    after.filterMap fun x => if x.2 then some ⟨t.start, t.stop + x.1.start + x.1.len⟩ else none
    else [])
 
+/-- what the time-period extractor returns on a prefix / suffix of the text, keyed by where the text is cut (the same
+string gives the same answer): `adjB` by `token.start`, `adjA` by `token.start + token.length`. -/
+structure TodAdj where
+  adjB : List (Int × List (Ent × Int × Bool))
+  adjA : List (Int × List (Ent × Bool))
+deriving Repr, Inhabited
+
+def lookupCut {α : Type} (k : Int) : List (Int × List α) → List α
+  | [] => []
+  | x :: r => if x.1 == k then x.2 else lookupCut k r
+
 /-- `match_time_of_day`: `spec` = `specific_time_of_day_regex` matches; without date results only those. -/
-def dtpTimeOfDay (n : Int) (spec : List Mt) (dates : List TodFact) (adj : List TodAdj) : List Tok :=
+def dtpTimeOfDay (n : Int) (spec : List Mt) (dates : List TodFact) (adj : TodAdj) : List Tok :=
   if dates.isEmpty then tokensOf spec
   else
     let first := tokensOf spec ++ todDates dates
-    first ++ (first.zip (adj ++ List.replicate first.length ⟨[], []⟩)).flatMap fun x => todAdjOne n x.1 x.2
+    first ++ first.flatMap fun t => todAdjOne n t (lookupCut t.start adj.adjB) (lookupCut (t.start + t.length) adj.adjA)
 
 /-- `match_relative_unit`: the relative-time-unit matches, or (when there are none) the rest-of-date-time ones. -/
 def dtpRelativeUnit (rel rest : List Mt) : List Tok := if rel.isEmpty then tokensOf rest else tokensOf rel
